@@ -99,7 +99,7 @@ func parseSingleConstraint(c string) ([]*constraint, error) {
 	}
 
 	// Handle wildcard constraint (1.2.* or 1.x)
-	if strings.Contains(c, "*") || strings.Contains(c, "x") {
+	if hasWildcardPart(c) {
 		return parseWildcardConstraint(c)
 	}
 
@@ -295,6 +295,21 @@ func parseTildeConstraint(version string) ([]*constraint, error) {
 			{operator: "<", version: upperVersion},
 		}, nil
 	}
+}
+
+// hasWildcardPart reports whether c is a wildcard constraint: numeric parts
+// followed by a '*' or 'x' placeholder part. A plain 'x' inside a name
+// (>=dev-next, dev-1.x) is not.
+func hasWildcardPart(c string) bool {
+	for i, part := range strings.Split(c, ".") {
+		if part == "*" || part == "x" {
+			return i > 0
+		}
+		if _, err := strconv.Atoi(part); err != nil {
+			return false
+		}
+	}
+	return false
 }
 
 // parseWildcardConstraint handles wildcard constraints (1.2.* or 1.x)
